@@ -56,6 +56,9 @@ def cfgs(tier, kinds=("state", "povm", "gate", "mprocess")):
                     out.append((s, "povm", m, on_para))
                 if "mprocess" in kinds and not (s != "1q" and m > 3):
                     out.append((s, "mprocess", m, on_para))
+    if "state" in kinds and tier == "quick":
+        # a composite system in the quick tier too (dimension of the whole system != dimension of its first factor)
+        out += [("2q", "state", 0, True), ("2q", "state", 0, False)]
     if "mprocess" in kinds:
         # measurement processes whose outcomes carry a multi-index shape (as composition / tensor product produce them)
         for on_para in (True, False):
